@@ -78,7 +78,7 @@ def cfg_of(spec):
     return sim.make_config(mode=spec["mode"], spectrum=spec["spectrum"], optical=spec["optical"], radio=spec["radio"], n=spec["n"], cloud=spec.get("cloud", "none"))
 
 
-def run_compute(spec, path, write_stages, crash_at=None, stage=None, fault_kind="error"):
+def run_compute(spec, path, write_stages, crash_at=None, stage=None, fault_kind="error", depth="entry"):
     """returns ('ok', table) | ('raised', repr). crash_at: os._exit(9) right after that many writes."""
     cfg = cfg_of(spec)
 
@@ -88,7 +88,7 @@ def run_compute(spec, path, write_stages, crash_at=None, stage=None, fault_kind=
 
     with warnings.catch_warnings():
         warnings.simplefilter("ignore")
-        with faults.write_spy(on_boundary), faults.stage_fault(stage, fault_kind):
+        with faults.write_spy(on_boundary), faults.stage_fault(stage, fault_kind, depth):
             if crash_at == 0:
                 os._exit(9)
             try:
@@ -331,7 +331,7 @@ def job(a):
             if kb is None or (len(final) == 0 and st != "geometry"):
                 return [], info
             fk = case[2] if len(case) > 2 else "error"
-            status, r = run_compute(spec, path, True, stage=st, fault_kind=fk)
+            status, r = run_compute(spec, path, True, stage=st, fault_kind=fk, depth=case[3] if len(case) > 3 else "entry")
             if status != "raised":
                 out.append(("exception_propagates", f"injected {fk} from stage {st}", "compute() returned normally" if status == "ok" else r))
             out += judge_file(path, spec, kb, final)
@@ -354,7 +354,7 @@ def job(a):
             try:
                 before = sorted(os.listdir(tmp))
                 if st is None or boundary_before_stage(spec["mode"], spec["optical"], spec["radio"], st) is not None:
-                    status, r = run_compute(spec, path, False, stage=st, fault_kind=case[2] if len(case) > 2 else "error")
+                    status, r = run_compute(spec, path, False, stage=st, fault_kind=case[2] if len(case) > 2 else "error", depth=case[3] if len(case) > 3 else "entry")
                     if status == "raised_other":
                         out.append(("unstaged_run_completes", "compute() returns or raises the injected failure", r))
                 after = sorted(os.listdir(tmp))
@@ -401,6 +401,10 @@ def run(ctx):
         for st in faults.STAGES:
             for fk in faults.FAULT_CLASSES:
                 jobs.append((sp, ("nowrite", st, fk)))
+        # failures raised INSIDE the real, decorated stage callables (they pass through the store / plot decorators)
+        for st in faults.INNER_STAGES:
+            jobs.append((sp, ("stage", st, "error", "inner")))
+            jobs.append((sp, ("nowrite", st, "error", "inner")))
     # output file names: the format is FITS whatever the name says (no extension, foreign extensions, upper case)
     for fname in FNAMES:
         sp = dict(base[0], fname=fname)
